@@ -44,6 +44,7 @@ SelectBest(mine, sa) == IF sa = <<>> THEN None
 SameSet(p, q) == p.proto = q.proto /\ RangeOf(p.transforms) = RangeOf(q.transforms)
 IsSubset(p, offer) == Intersection(p, offer) # None /\ SameSet(Intersection(p, offer), p) /\ Len(p.transforms) = Cardinality(RangeOf(p.transforms))
 \* KE rule: the KE payload must be in the group of the chosen proposal, else INVALID_KE_PAYLOAD naming the chosen group
+InitiatorAccepts(offer, answer) == LET i == Intersection(offer, answer) IN i # None /\ SameSet(i, answer) /\ Len(answer.transforms) = Cardinality(RangeOf(answer.transforms))
 DhOf(p) == LET d == {i \in 1..Len(p.transforms) : p.transforms[i].type = DH} IN IF d = {} THEN 0 ELSE p.transforms[CHOOSE i \in d : \A j \in d : i <= j].id
 KeRule(chosen, keGroup) == IF DhOf(chosen) = 0 \/ DhOf(chosen) = keGroup THEN [ok |-> TRUE] ELSE [ok |-> FALSE, notify |-> "INVALID_KE_PAYLOAD", group |-> DhOf(chosen)]
 \* retry only with a group I offered myself
@@ -107,6 +108,11 @@ ASSUME \A m \in IkeLocal : \A g \in 0..31 : RetryGroupOk(m, g) <=> (g \in {m.tra
 Vectors == [select |-> {[mine |-> c.mine, sa |-> c.sa, out |-> SelectBest(c.mine, c.sa),
                          inter |-> [k \in 1..Len(c.sa) |-> Intersection(c.mine, c.sa[k])]] : c \in Cases},
             subset |-> {[p |-> p, offer |-> o, out |-> IsSubset(p, o)] : p \in {x \in IkePeer : Len(x.transforms) <= 5}, o \in {y \in IkeLocal : Len(y.transforms) >= 6}},
+            \* the requester of a CHILD_SA checks the answer: every transform of the answer was offered AND every transform type the local policy requires is there
+            \* (an answer without the DH transform to an offer that requires PFS is refused, nothing installed)
+            accept |-> {[offer |-> o, answer |-> r, ok |-> InitiatorAccepts(o, r)] :
+                          o \in {x \in ChildPeer : Len(x.transforms) >= 3 /\ x.proto = 3},
+                          r \in {y \in {SelectBest(m, <<x>>) : m \in ChildLocal, x \in {z \in ChildPeer : z.proto = 3}} : y # None}},
             \* INVALID_KE_PAYLOAD: a suggestion is followed iff it is one of the DH transforms of the offer - the numbers of other transform types
             \* (integrity 14 = HMAC-SHA2-512 is also the number of MODP-2048, 12, 5, 2, 0 ...) do not count
             retry |-> {[offer |-> m, g |-> g, ok |-> RetryGroupOk(m, g)] : m \in {x \in IkeLocal : Len(x.transforms) \in {4, 7}}, g \in 0..31},
